@@ -731,3 +731,147 @@ func (e *fnEnc) ret(c *blockCtx, in *ssa.Return) {
 	e.retSt = append(e.retSt, &retPoint{block: c.b, results: res, st: c.st, reach: c.reach})
 	c.dead = true
 }
+
+// ---------- frame (assigns) of verified functions ----------
+
+// assignsTargets evaluates the assigns clauses of the current contract in the
+// entry state: component -> references that may be written ("*" = all).
+func (e *fnEnc) assignsTargets() (map[string][]Term, bool) {
+	out := map[string][]Term{}
+	env := e.entryEnv(e.entrySt)
+	var addObj func(si *structInfo, r Term)
+	addObj = func(si *structInfo, r Term) {
+		for i, f := range si.fields {
+			if f.embStruct {
+				addObj(e.structOf(f.typ), e.embApp(si, i, r))
+				continue
+			}
+			comp, _ := e.fieldComp(si, i)
+			out[comp] = append(out[comp], r)
+		}
+	}
+	for _, cl := range e.ctr.Get("assigns") {
+		txt := strings.TrimSpace(cl.Text)
+		switch {
+		case txt == "nothing":
+		case txt == "heap" || txt == "*":
+			return nil, true
+		case strings.HasSuffix(txt, ".*"):
+			ex, err := parseExpr(strings.TrimSuffix(txt, ".*"))
+			if err != nil {
+				e.fail("assigns %s: %v", txt, err)
+			}
+			v := e.evalSpec(ex, env)
+			addObj(e.structOf(ptrElem(v.typ)), v.t)
+		case strings.HasPrefix(txt, "all "):
+			t := strings.TrimSpace(txt[4:])
+			k := strings.LastIndex(t, ".")
+			typ, ok := e.eng.lookupType(env.pkg, t[:k])
+			if !ok {
+				e.fail("assigns all: unknown type %s", t[:k])
+			}
+			si := e.structOf(typ)
+			comp, _ := e.fieldComp(si, si.fieldIndex(t[k+1:]))
+			out[comp] = append(out[comp], T(SInt, "*"))
+		case strings.HasPrefix(txt, "elems("):
+			ex, err := parseExpr(txt[len("elems(") : len(txt)-1])
+			if err != nil {
+				e.fail("assigns %s: %v", txt, err)
+			}
+			v := e.evalSpec(ex, env)
+			es := e.sortOf(types.Unalias(v.typ).Underlying().(*types.Slice).Elem())
+			comp, _ := e.elemComp(es)
+			out[comp] = append(out[comp], slBase(v.t))
+		case strings.HasPrefix(txt, "mapof("):
+			ex, err := parseExpr(txt[len("mapof(") : len(txt)-1])
+			if err != nil {
+				e.fail("assigns %s: %v", txt, err)
+			}
+			v := e.evalSpec(ex, env)
+			ks, vs, _ := e.mapSorts(v.typ)
+			dc, _, vc, _ := e.mapComps(ks, vs)
+			out[dc] = append(out[dc], v.t)
+			out[vc] = append(out[vc], v.t)
+		default:
+			ex, err := parseExpr(txt)
+			if err != nil {
+				e.fail("assigns %s: %v", txt, err)
+			}
+			sel, ok := ex.(*ESel)
+			if !ok {
+				e.fail("assigns: unsupported location %s", txt)
+			}
+			base := e.evalSpec(sel.X, env)
+			si := e.structOf(ptrElem(base.typ))
+			i := si.fieldIndex(sel.Name)
+			if i < 0 {
+				e.fail("assigns %s: no such field", txt)
+			}
+			if si.fields[i].embStruct {
+				addObj(e.structOf(si.fields[i].typ), e.embApp(si, i, base.t))
+			} else {
+				comp, _ := e.fieldComp(si, i)
+				out[comp] = append(out[comp], base.t)
+			}
+		}
+	}
+	return out, false
+}
+
+// frameObligations: memory that existed at entry and is not named in `assigns`
+// is unchanged at exit (root objects only; inline struct fields of pre-existing
+// objects are covered through the field components they are flattened into).
+func (e *fnEnc) frameObligations(exit *state, reach Term) {
+	targets, all := e.assignsTargets()
+	if all {
+		return
+	}
+	if ep, ok := exit.m["!epoch"]; ok && ep.S != "" {
+		e.obligationNoAssume("frame", "heap", reach, tFalse, "an uncontracted call or a loop may modify the whole heap, but `assigns heap` is not declared", "")
+		return
+	}
+	var comps []string
+	for k := range exit.m {
+		if k != "!epoch" && !strings.HasPrefix(k, "Iter.") {
+			comps = append(comps, k)
+		}
+	}
+	sort.Strings(comps)
+	r := e.declare("frame.r", SInt)
+	for _, comp := range comps {
+		final := exit.m[comp]
+		entry := e.heapGet(e.entrySt, comp, final.Sort)
+		if final.S == entry.S {
+			continue
+		}
+		allowed := targets[comp]
+		skip := false
+		conds := []Term{lt(intLit(0), r), le(r, e.entrySt.alloc)}
+		if strings.HasPrefix(comp, "H.") {
+			// interior (inline struct) addresses of pre-existing objects are negative
+			conds = []Term{not(eq(r, intLit(0))), le(r, e.entrySt.alloc)}
+		}
+		for _, a := range allowed {
+			if a.S == "*" {
+				skip = true
+			}
+			conds = append(conds, not(eq(r, a)))
+		}
+		if skip {
+			continue
+		}
+		parts := splitSortArgs(string(final.Sort)[len("(Array ") : len(final.Sort)-1])
+		goal := imp(and(conds...), eq(sel(final, r, Sort(parts[1])), sel(entry, r, Sort(parts[1]))))
+		if strings.HasPrefix(comp, "H.") {
+			// negative references: only those that are interior addresses of old objects matter;
+			// locals' interior addresses are excluded by requiring the reference to be an assigns-irrelevant old one
+			goal = imp(e.oldRef(r), goal)
+		}
+		e.obligationNoAssume("frame", comp, reach, goal, "only locations named in assigns are modified", "")
+	}
+}
+
+// oldRef: r is a root object that existed at entry (interior addresses are not checked).
+func (e *fnEnc) oldRef(r Term) Term {
+	return and(lt(intLit(0), r), le(r, e.entrySt.alloc))
+}
